@@ -61,7 +61,16 @@ pub fn check_text(text: &str, side: &[(String, String)]) -> Verdict {
             let norm = text.replace("\r\n", "\n");
             let rendered = rendered.replace("\r\n", "\n");
             if norm.eq_ignore_ascii_case(&rendered) || norm.to_lowercase() == rendered.to_lowercase() {
-                Verdict::Lossless
+                // the letter case of mnemonics and keywords is free, that of comments is not: their texts have to come
+                // back as they were
+                let (a, b) = (comment_texts(&norm), comment_texts(&rendered));
+                match a.iter().zip(b.iter()).position(|(x, y)| x != y) {
+                    Some(k) => {
+                        let at = norm.find(a[k].as_str()).unwrap_or(0);
+                        Verdict::Lossy { at, rendered }
+                    }
+                    None => Verdict::Lossless,
+                }
             } else {
                 // first difference
                 let a = norm.as_bytes();
@@ -77,6 +86,51 @@ pub fn check_text(text: &str, side: &[(String, String)]) -> Verdict {
             }
         }
     }
+}
+
+/// The comments of a text (`// …` to the end of the line, nesting `/* … */`), strings skipped.
+fn comment_texts(text: &str) -> Vec<String> {
+    let b: Vec<char> = text.chars().collect();
+    let n = b.len();
+    let at = |i: usize| if i < n { b[i] } else { '\0' };
+    let mut out = vec![];
+    let mut i = 0;
+    while i < n {
+        if b[i] == '/' && at(i + 1) == '/' {
+            let mut j = i;
+            while j < n && b[j] != '\n' && b[j] != '\r' {
+                j += 1;
+            }
+            out.push(b[i..j].iter().collect());
+            i = j;
+        } else if b[i] == '/' && at(i + 1) == '*' {
+            let mut depth = 1;
+            let mut j = i + 2;
+            while j < n && depth > 0 {
+                if b[j] == '/' && at(j + 1) == '*' {
+                    depth += 1;
+                    j += 2;
+                } else if b[j] == '*' && at(j + 1) == '/' {
+                    depth -= 1;
+                    j += 2;
+                } else {
+                    j += 1;
+                }
+            }
+            let j = j.min(n);
+            out.push(b[i..j].iter().collect());
+            i = j;
+        } else if b[i] == '"' {
+            let mut j = i + 1;
+            while j < n && b[j] != '"' && b[j] != '\n' {
+                j += 1;
+            }
+            i = (j + 1).min(n);
+        } else {
+            i += 1;
+        }
+    }
+    out
 }
 
 fn report(ctx: &Ctx, item: &Item, v: Verdict) {
